@@ -35,6 +35,15 @@ CLAIMS = {
         'Hull containment, order independence and the numeric norm bound are not decided.',
    design='DESIGN.md section 4 C07; rules R-DONATE, R-WMEAN, R-DIV, R-ONEPASS, R-PURE, R-CLIP',
    technique='buffer-ownership (donation) dataflow + guard/denominator classification + accumulator-shape recognition'),
+ 'C11': dict(
+   text='Static analysis (level "other"): decides the structural clauses of the quantizer property on all code paths: every '
+        'data-dependent division in compression.py is guarded (nan_to_num / safe_div / non-negative self-normalisation), the '
+        'probability compared with the uniform sample derives from a value clamped to [0,1], PRNG keys are linear per round, '
+        'per client (PRNGSequence of a split output) and per leaf, rotation and inverse rotation share key and shapes, the '
+        'client weight is passed through unchanged into tree_mean, and the bit counter accumulates the documented formula. '
+        'Unbiasedness, grid membership and error bounds (expectations/values) are not decided.',
+   design='DESIGN.md section 4 C11; rules R-DIV, R-KEY K1-K4, R-PAIR, R-WMEAN, R-CLAMP',
+   technique='denominator classification + guard recognition, PRNG-key linearity typestate, paired-use provenance checks'),
  'C12': dict(
    text='Static analysis (level "other"): Engler-style sibling cross-check of the seven built-in algorithms against the FedAvg '
         'row: per trainer the recovered roles (start point, optimizer state threading, gradient evaluation point, delta direction, '
